@@ -358,6 +358,8 @@ def ch_channeled_release(ctx, rep):
             txt = [e for e in p.calls() if e.ck == "std::option::Option::take" and strip_wrap(e.args[0]) == ("field", ("param", 1), "tx")]
             ht = [e for e in p.calls() if e.ck == "std::option::Option::take" and strip_wrap(e.args[0]) == ("field", ("param", 1), "handle")]
             dropped = [e for e in p.events if (e.kind == "drop" and e.target is not None and any(x[0] == "take" and strip_wrap(x[1]) == ("field", ("param", 1), "tx") for x in subterms(e.target))) or (e.kind == "call" and e.ck == "std::mem::drop" and any(x[0] == "take" and strip_wrap(x[1]) == ("field", ("param", 1), "tx") for a in e.args for x in subterms(a)))]
+            enq = [e for e in p.calls() if e.site is not None and (A.is_send_wrapper_call(e.site) or any(e.site.ck == w_.path for w_ in []) or (ctx.prog.callee_body(e.site) is not None and any(ctx.prog.callee_body(e.site).path == w_.path for w_ in A.send_wrappers)))]
+            rep.check(not enq, "R2", "release-enqueues-nothing:" + short(b.path), ctx.where(b, enq[0].bb) if enq else ctx.where(b), "the release path puts nothing into the subscriber's channel", "the release path enqueues %s into the subscriber's channel: under a drop policy this evicts a queued notification" % [term_str(e.args[1]) if len(e.args) > 1 else "?" for e in enq])
             hs = _dec(p, lambda k: k[0] == "discr" and strip_wrap(k[1]) == ("field", ("param", 1), "handle") and k[1][0] != "lockres")
             if hs == "Some":
                 good = len(joins) == 1 and txt and dropped and p.events.index(dropped[0]) < p.events.index(joins[0]) and strip_wrap(joins[0].args[0]) == ("vfield", ("take", ("wrap", "Guard", ("field", ("param", 1), "handle"))), "Some", 0) or False
